@@ -135,6 +135,21 @@ def run(chk):
     total += len(cases)
     for c in cases:
         f = c.split()[2]; dist[f] = dist.get(f, 0) + 1
+    # --- search for a failing input when the loop monitor rejected: texts near the repository's own test strings, for the fonts concerned
+    rej = [t for t in chk.tie_breaks if t['what'] == 'correspondence:loop']
+    if rej:
+        rfonts = sorted(set((t.get('case') or '').split()[2] for t in rej if len((t.get('case') or '').split()) > 2))
+        scases = []
+        for k in range(24000 if thorough else 6000):
+            font = rng.choice(rfonts)
+            if font not in S.FONTS:
+                continue
+            cps = S.gen_text_seeded(rng, vlib.REPO, font, 10)
+            if cps:
+                scases.append(S.case_line('q%d' % k, font, S.encode(cps, 32), 32, dir_=rng.choice((0, 0, 1, 2, 3)), ops=('dump',)))
+        _, sl, _ = vlib.run_pair(None, w, scases, timeout=3000)
+        ndis += check_lines(chk, 'search', scases, sl, [None] * len(scases), classes, {})
+        total += len(scases)
     # --- mutated fonts that the real loader accepts
     fdir = os.path.join(vlib.BUILD, 'fuzzfonts', 'c02-%s-%d' % (chk.tier, chk.seed))
     shutil.rmtree(fdir, ignore_errors=True)
